@@ -200,14 +200,20 @@ pub enum PathKind {
     LinkToDir,
     LinkToFile,
     Dangling,
+    /// a symlink that points at itself (resolution fails with ELOOP): not a directory
+    LinkLoop,
+    /// a symlink whose target lies beneath a regular file (resolution fails with ENOTDIR)
+    LinkThroughFile,
 }
-pub const PATH_KINDS: [PathKind; 6] = [
+pub const PATH_KINDS: [PathKind; 8] = [
     PathKind::Absent,
     PathKind::Dir,
     PathKind::File,
     PathKind::LinkToDir,
     PathKind::LinkToFile,
     PathKind::Dangling,
+    PathKind::LinkLoop,
+    PathKind::LinkThroughFile,
 ];
 pub const IMPLICIT_NAMES: [&str; 4] = ["bin", "lib", "include", "pkgconfig"];
 
@@ -271,6 +277,14 @@ pub enum Op {
         path: Vec<u8>,
         target: LinkTarget,
     },
+    /// a hard link inside the layer to a file outside it (same inode)
+    HardLink {
+        layer: usize,
+        #[serde(with = "crate::hexbytes")]
+        path: Vec<u8>,
+        #[serde(with = "crate::hexbytes")]
+        to: Vec<u8>,
+    },
     /// set <layer>/{bin,lib,include,pkgconfig}[which] to an entry of the given kind
     Implicit { layer: usize, which: usize, kind: PathKind },
     /// the model writes a spec-shaped env directory itself (read side of C03)
@@ -296,6 +310,7 @@ impl Op {
             | Op::PlainFile { layer, .. }
             | Op::MkDir { layer, .. }
             | Op::Symlink { layer, .. }
+            | Op::HardLink { layer, .. }
             | Op::Implicit { layer, .. }
             | Op::SpecDir { layer, .. }
             | Op::TopSymlink { layer, .. } => Some(*layer),
@@ -317,6 +332,7 @@ impl Op {
             Op::PlainFile { .. } => "PlainFile",
             Op::MkDir { .. } => "MkDir",
             Op::Symlink { .. } => "Symlink",
+            Op::HardLink { .. } => "HardLink",
             Op::Implicit { .. } => "Implicit",
             Op::SpecDir { .. } => "SpecDir",
             Op::TopSymlink { .. } => "TopSymlink",
